@@ -128,6 +128,8 @@ class T(unittest.TestCase):
         # a changed call inside a kept logging statement is seen, its wording is not
         self.differ('def f(x):\n    logger.info("a %s", g(x))\n', 'def f(x):\n    logger.info("a %s", h(x))\n')
         self.same('def f(x):\n    logger.info("a %s", g(x))\n', 'def f(x):\n    logger.info("b: %s", g(x))\n')
+        self.same('def f(x):\n    logger.info("a %s" % g(x))\n', 'def f(x):\n    logger.info(f"b: {g(x)}")\n')
+        self.differ('def f(x):\n    logger.info("a %s" % g(x))\n', 'def f(x):\n    logger.info("a %s" % h(x))\n')
         # the value of a logging call is not a statement of its own
         self.differ(base, 'def f(self, x):\n    y = logger.info("a")\n    return x\n')
         self.differ(base, 'def f(self, x):\n    return logger.info("a") or x\n')
